@@ -367,6 +367,8 @@ func checkC22(c *Ctx) *report.Result {
 		}
 		r.Ob("J-owner", len(ws) == 1 && ws[0] == want, "writers of controller"+path, "", fmt.Sprintf("stored by %v; documented owner %s", ws, want))
 	}
+	r.Rule("J-cpu", "the select bits are whatever the program wrote last: every CPU row performs exactly its documented memory writes (S-cpu of C23 re-stated), so no instruction writes FF00 behind the program's back")
+	adopt(r, c.sibling("C23"), map[string]string{"S-cpu": "J-cpu"}, "an instruction that writes to memory on its own account can overwrite the select bits the program wrote")
 	return r
 }
 
